@@ -304,6 +304,9 @@ pub enum POp {
     SetCreationFee { amount: u32, denom: u8 },
     Advance { secs: u32 },
     Bad(Bad),
+    /// a route containing a hop whose input and output denom are the same (must be refused; if a
+    /// contract accepts it, it is judged like any other hop)
+    RouteSameDenomHop { user: u8, pool: u16, asset: u8, amt: Amt, slip: Slip, lead_in: bool },
     /// a trader swaps an amount out and back through 1-3 pools (only the C03 engine generates it)
     RoundTrip { user: u8, pool: u16, offer: u8, path: Vec<(u16, u8)>, ppm: u32, close: u16 },
     /// fully resolved direct swap (used internally by RoundTrip; never generated)
@@ -468,7 +471,10 @@ pub fn op_strat(w: Weights, simple_routes: bool) -> impl Strategy<Value = POp> {
         w.single => single_strat(),
         w.withdraw => withdraw_strat(),
         w.swap => swap_strat(),
-        w.route => route_strat(simple_routes),
+        w.route => prop_oneof![
+            11 => route_strat(simple_routes),
+            1 => (0u8..4, any::<u16>(), 0u8..4, amt_strat(), slip_strat(), any::<bool>()).prop_map(|(user, pool, asset, amt, slip, lead_in)| POp::RouteSameDenomHop { user, pool, asset, amt, slip, lead_in }),
+        ],
         w.misc => misc_strat(),
         w.bad => bad_strat().prop_map(POp::Bad),
         w.roundtrip => (0u8..4, any::<u16>(), 0u8..4, proptest::collection::vec((any::<u16>(), 0u8..3), 0..3), 1u32..300_000, any::<u16>())
